@@ -121,6 +121,8 @@ def run(chk):
             chk.ok('C05-R3', where, sample='%s: build..()? then emit' % where)
     chk.floor('functions calling emit', emits, 3)
     r4(chk, fx)
+    from sa.kinds import arity
+    arity.rule(chk, fx, 'C05-arity', ('need',))
     # ---- R7: surplus positional arguments
     chk.rule('C05-R7', 'Context::substitute_subr_call rejects a call with more positional arguments than parameters unless the callee has `*args`: the condition that leads to '
                        'gen_too_many_args_error is true for (surplus positionals, no var_params) whatever kw_var_params is (truth table over the two variadic flags)')
